@@ -136,6 +136,31 @@ ROUND4 = {
 for _k, _v in ROUND4.items():
     CLAIMED[_k]["text"] += " " + _v
 
+# what the fifth seeding round added (appended after the round-4 texts)
+ROUND5 = {
+ "C01": "Round 5: equality operands of one comparable static type whose interface parts hold lists, maps, functions or nested structs, type paths of length 2-4 through nil modules in 28 type positions, one member-expression node evaluated repeatedly over records of different shapes (also by re-running one parsed program while a name is rebound), receive operations on directional host channels.",
+ "C02": "Round 5: 45 callback wrappers - Go callback types with a context.Context parameter (the host passes its own, the background or a nil context), script functions stored or appended into func-typed slices, maps, fields, pointers and channels, functions returned in result positions of multi-result callbacks, a callback run on a host goroutine.",
+ "C04": "Round 5: closures made by calling one factory twice (the captured name declared in a place of the literal that does not cover the read), a function value used again after a nearer binding of its free name was made, a name only the host's lookup object answers read and assigned at every nesting level.",
+ "C05": "Round 5: the kind of float - string results; phase history: hostile prefixes obtain an integer result in 12 ways and store to it in 16 ways (through pointers to operator results among them), then every operator of the statement recomputes the target values in the same and in a fresh environment, plus a sweep of -3..4098.",
+ "C06": "Round 5: phase long (twelve boundary integers against numerals of 40-3000 extra characters in fourteen spellings, exact big.Rat reference) and phase again (one in / == / switch evaluated 3-7 times from the same syntax nodes while operand values change, four ways of repeating).",
+ "C07": "Round 5: nested-target assignments executed repeatedly with operands that differ per execution (member, index, parenthesised and three-level containers; loop body and function called again), nil function values as callees (operands at most once each).",
+ "C08": "Round 5: C-style loops whose body, inner loop or callee writes the counter, map values rewritten by the first round of a two-variable for-in, failing case expressions, a stray break/continue of a nested run reported by a panicking Go function.",
+ "C09": "Round 5: failing case expressions inside try/finally and functions with defers, errors crossing repeated nested-target stores.",
+ "C10": "Round 5: ten script functions whose body is one nested-target assignment (plain, parenthesised, op=, ++) called again and again on inner slices, maps and strings; one assignment statement as the body of 2-4 loop passes; struct values inside untyped containers whose slice field shares spare capacity with a variable.",
+ "C11": "Round 5: phase ptrarg (pointer arguments in plain and spread calls: nine callee kinds, 16 pointee types, absolute oracle on invocation count, pointee on entry, read-back and results), phase deepstore (stores at random paths through a Go struct bound by pointer against the same store made by reflect on a twin), phase cbvar (variadic callbacks).",
+ "C12": "Round 5: phase paths (modules with sub-modules, module names rebound to plain values in nearer scopes, lookup objects answering values and modules, paths of 1-3 elements): paths of every length must resolve their first element by ONE of the three readings the statement admits.",
+ "C13": "Round 5: race phase scopes (reader-only rounds with Addr of nil bindings; operations started in descendants and in scripts running in child scopes against writers on the ancestors; module members written while the parent is printed and copied; single-writer read-back oracle) and lookup configurations under the controlled scheduler (a lookup object that reads its own scope).",
+ "C14": "Round 5: phase shared (helper functions of 0-8 fixed or variadic parameters defined once and called by 8 environments made by Copy, DeepCopy or as child scopes, alone and all at once; one tree run over differing host data sequentially and concurrently against a freshly parsed tree), types declared in nested scopes followed by resolution in later blocks, runs and environments, canaries for both.",
+ "C15": "Round 5: phase recvassign (28 kinds of white space incl. line breaks, CRLF, NEL, U+2028 and comments between = and <-, 6 target forms, 20 error contexts and every truncation, composition with 24 partner texts).",
+ "C16": "Round 5: phase stepped (pipelines started by one call and consumed by later calls on the same environment or by the host reading the script-made channel; verdict from goroutine states), send-on-closed and double-close provoked inside loop bodies incl. for-in over a channel, the implicit relay dst <- src as a forwarding stage.",
+ "C17": "Round 5: phase history (up to 24 million callback calls of stopped walks in six modes - deep spines, many small programs stopped at every position, concurrent and nested stops - with complete walks judged by the unchanged oracle in between and afterwards).",
+ "C18": "Round 5: phase diag-env (failing scripts whose error text contains % in every position and line breaks; 50 names no scope defines incl. every bundled package name, in 34 positions, in both modes).",
+ "C19": "Round 5: every function entry of every table read through the script in six positions (must be the table's Go function by code pointer and type), type entries through make; phase histories (range, keys, toXSlice results changed by script and host stores between calls, same and fresh environments); values of named string types judged by their content.",
+ "C20": "Round 5: phase live (about 70 sites x 19 operand kinds x 12 places holding the operand x replace / mutate stores made by a later operand; reference taken in position through id(place) and a function result; for-in variables against let-bound copies; the pointer write-back family is a listed finding).",
+}
+for _k, _v in ROUND5.items():
+    CLAIMED[_k]["text"] += " " + _v
+
 def main():
     checks = []
     for pid in ALL:
